@@ -27,9 +27,11 @@ package keeper
 //@   ensures [C16.count.shard] n == effShardCount(get(ShardCount))
 //@ func (Keeper) SetOrderCount(ctx, count)
 //@   modifies OrderCount
+//@   nopanic [C02.count.nopanic]
 //@   ensures [C16.count.setorder] !isnil(get(OrderCount)) && be64dec(get(OrderCount)) == count
 //@ func (Keeper) SetShardCount(ctx, count)
 //@   modifies ShardCount
+//@   nopanic [C02.count.nopanic]
 //@   ensures [C16.count.setshard] !isnil(get(ShardCount)) && be64dec(get(ShardCount)) == count
 
 // identifiers are handed out from the counter, never reused, and increase with creation order
@@ -171,3 +173,25 @@ package keeper
 //@       && order.Size_ == old(order.Size_) && order.Replica == old(order.Replica) && order.Commit == old(order.Commit) && order.Creator == old(order.Creator)
 //@   ensures [C04.reneworder.err] err != nil ==> (forall i int :: 0 <= i && i <= MaxUint64 ==> Order[i] == old(Order[i]) && (has(Order, i) <==> old(has(Order, i)))) && get(OrderCount) == old(get(OrderCount))
 //@       && *order == old(*order)
+
+// GetAllOrder: the genesis export of the Order store - every stored record, each exactly as stored
+//@ func (Keeper) GetAllOrder(ctx) (list)
+//@   modifies nothing
+//@   ensures [C18.getall.order.stored] forall j int :: 0 <= j && j < len(list) ==> has(Order, list[j].Id) && Order[list[j].Id] == list[j]
+//@   ensures [C18.getall.order.complete] forall c int :: 0 <= c && c <= MaxUint64 && has(Order, c) ==> contains(list, Order[c])
+//@   ensures [C18.getall.order.distinct] forall a int, b int :: 0 <= a && a < b && b < len(list) ==> list[a].Id != list[b].Id
+//@   loop L1 invariant 0 <= itpos() && itpos() <= itlen() && len(list) == itpos()
+//@   loop L1 invariant forall j int :: 0 <= j && j < len(list) ==> list[j] == rawget(Order, itkey(j)) && itkey(j) == keyof(Order, list[j].Id)
+//@   loop L1 invariant forall j int :: 0 <= j && j < len(list) ==> contains(list, list[j])
+//@   loop L1 decreases [C02.getall.order.term] itlen() - itpos()
+
+// GetAllShard: the genesis export of the Shard store - every stored record, each exactly as stored
+//@ func (Keeper) GetAllShard(ctx) (list)
+//@   modifies nothing
+//@   ensures [C18.getall.shard.stored] forall j int :: 0 <= j && j < len(list) ==> has(Shard, list[j].Id) && Shard[list[j].Id] == list[j]
+//@   ensures [C18.getall.shard.complete] forall c int :: 0 <= c && c <= MaxUint64 && has(Shard, c) ==> contains(list, Shard[c])
+//@   ensures [C18.getall.shard.distinct] forall a int, b int :: 0 <= a && a < b && b < len(list) ==> list[a].Id != list[b].Id
+//@   loop L1 invariant 0 <= itpos() && itpos() <= itlen() && len(list) == itpos()
+//@   loop L1 invariant forall j int :: 0 <= j && j < len(list) ==> list[j] == rawget(Shard, itkey(j)) && itkey(j) == keyof(Shard, list[j].Id)
+//@   loop L1 invariant forall j int :: 0 <= j && j < len(list) ==> contains(list, list[j])
+//@   loop L1 decreases [C02.getall.shard.term] itlen() - itpos()
